@@ -223,6 +223,7 @@ fn judge_grid(case: &Case, l: &mut Local) {
     }
     // UV round trip (unposed, unrelabelled meshes carry the map)
     if let (Some(uv), 0, 0) = (&uv, case.pose, case.relabel) {
+        let poses = gen::iso3_poses();
         for mirrored in [false, true] {
             // a UV map may be given with the v axis pointing down (image coordinates)
             let uv_used: Vec<Point2> = if mirrored { uv.iter().map(|p| Point2::new(p.x, -p.y)).collect() } else { uv.clone() };
@@ -238,6 +239,19 @@ fn judge_grid(case: &Case, l: &mut Local) {
                     let lifted = p3 + Vector3::new(0.0, 0.0, 0.01);
                     let r = guarded(|| m2.uv_with_tol(&lifted, 0.1, 0.5, None).and_then(|(uvp, depth)| m2.uv_to_3d(&uvp).map(|b| (b, depth))));
                     l.bucket(if mirrored { "UV round trip through a mirrored map" } else { "UV round trip" });
+                    // the same query given in another frame together with the transform that brings it back
+                    for tf in [&poses[1], &poses[2]] {
+                        let away = tf.inverse_transform_point(&lifted);
+                        let moved = tf * away;
+                        let via = guarded(|| m2.uv_with_tol(&away, 0.1, 0.5, Some(tf)));
+                        let direct = guarded(|| m2.uv_with_tol(&moved, 0.1, 0.5, None));
+                        let same = match (&via, &direct) {
+                            (Ok(None), Ok(None)) => true,
+                            (Ok(Some(a)), Ok(Some(b))) => a.0 == b.0 && a.1 == b.1,
+                            _ => false,
+                        };
+                        l.check("a UV query passed with a transform is the query on the moved point", "", same, mk, || format!("p {:?}: through the transform {:?}, on the moved point {:?}", p3, via, direct));
+                    }
                     match r {
                         Ok(Some((back, depth))) => {
                             l.check("a surface point round-trips through UV coordinates", "", d3(&back.point, &p3) <= 1e-6 && (depth - 0.01).abs() <= 1e-9 && (back.normal.into_inner() - Vector3::z()).norm() <= 1e-9, mk, || {
